@@ -180,7 +180,7 @@ func patternMsg(n int) []byte {
 func TestMD4CutsExhaustive(t *testing.T) {
 	s := vf.Begin(t, P, "md4-cuts-exhaustive")
 	s.SetExhaustive()
-	maxLen := vf.N(200, 1100)
+	maxLen := vf.Size(200, 1100)
 	s.Note("all message lengths 0..%d x every single cut point", maxLen)
 	vf.Enum(s, func(yield func(cutCase)) {
 		for n := 0; n <= maxLen; n++ {
@@ -278,7 +278,7 @@ func TestMD4ReadInterleaveExhaustive(t *testing.T) {
 	s := vf.Begin(t, P, "md4-read-interleave-exhaustive")
 	s.SetExhaustive()
 	alphabet := []op{{"w", nil}, {"w", patternMsg(1)}, {"w", patternMsg(55)}, {"w", patternMsg(56)}, {"w", patternMsg(64)}, {Kind: "sum"}, {Kind: "hex"}}
-	depth := vf.N(5, 7)
+	depth := vf.Size(5, 7)
 	s.Note("all operation sequences of length 1..%d over {w0,w1,w55,w56,w64,Sum,HexSum}, each followed by a final Sum", depth)
 	vf.Enum(s, func(yield func(seqCase)) {
 		var rec func(prefix []op, d int)
